@@ -546,4 +546,79 @@ theorem dt_add' (lo hi day : Int) (t : Time) (d : Delta) (ht : TValid t) (hd : D
     simp only [nsInRange, ns, NS_MAX] at hr
     omega
 
+theorem dt_sub' (lo hi day : Int) (t : Time) (d : Delta) (ht : TValid t) (hd : DInv d)
+    (hw : -100000000 ≤ lo ∧ hi ≤ 100000000 ∧ lo ≤ day ∧ day ≤ hi) :
+    TimeCarry.checked_sub_signed lo hi day t d =
+      .ok (if lo ≤ day + (addLeap t (-(ns d))).2 / 86400 ∧ day + (addLeap t (-(ns d))).2 / 86400 ≤ hi
+           then some (day + (addLeap t (-(ns d))).2 / 86400, (addLeap t (-(ns d))).1) else none) := by
+  unfold TimeCarry.checked_sub_signed
+  rw [sub_spec' t d ht hd, rbind_ok]
+  have hm := (addLeap_facts t (-(ns d)) ht).2.1
+  have hr : -9223372036854775807000000 ≤ -(ns d) ∧ -(ns d) ≤ 9223372036854775807000000 := by
+    have := hd.2.2
+    simp only [nsInRange, NS_MAX] at this
+    omega
+  have hb := addLeap_carry_bound t (-(ns d)) ht hr
+  generalize addLeap t (-(ns d)) = p at *
+  obtain ⟨r, c⟩ := p
+  simp only [] at hm hb ⊢
+  unfold Delta.try_seconds
+  rw [new_iff' (-c) 0 (by omega)]
+  by_cases hrr : (0:Int) < 1000000000 ∧ nsInRange (ns ⟨-c, 0⟩)
+  · rw [if_pos hrr]
+    simp only []
+    rw [num_days_whole (-c) (by omega), ckI64_ok (by omega) (by omega), rbind_ok]
+    have e : -(-c / 86400) = c / 86400 := by omega
+    rw [e]
+    have h1 : I32_MIN = -2147483648 := rfl
+    have h2 : I32_MAX = 2147483647 := rfl
+    by_cases hg : c / 86400 < I32_MIN ∨ c / 86400 > I32_MAX
+    · rw [if_pos hg, if_neg (by omega)]
+    · rw [if_neg hg]
+      unfold TimeCarry.add_days
+      by_cases hwin : lo ≤ day + c / 86400 ∧ day + c / 86400 ≤ hi
+      · rw [if_pos hwin, if_pos hwin]
+      · rw [if_neg hwin, if_neg hwin]
+  · rw [if_neg hrr]
+    simp only []
+    rw [if_neg]
+    simp only [nsInRange, ns, NS_MAX] at hrr
+    omega
+
+theorem dt_diff' (dayA dayB : Int) (ta tb : Time) (ha : TValid ta) (hb : TValid tb)
+    (hw : -200000000 ≤ dayA - dayB ∧ dayA - dayB ≤ 200000000) :
+    TimeCarry.signed_duration_since dayA ta dayB tb =
+      .ok (ofNs ((dayA - dayB) * 86400000000000 + diffLeap ta tb)) := by
+  unfold TimeCarry.signed_duration_since Delta.try_days
+  rw [try_unit_exact' SECS_PER_DAY (dayA - dayB) (by right; right; right; left; rfl) (by omega)]
+  have hS : SECS_PER_DAY = 86400 := rfl
+  have hd := diff_spec' ta tb ha hb
+  have hr1 : nsInRange ((dayA - dayB) * SECS_PER_DAY * 1000000000) := by
+    simp only [nsInRange, NS_MAX, hS]; omega
+  rw [if_pos hr1]
+  simp only []
+  rw [hd.1, rbind_ok, add_exact' _ _ (ofNs_spec' _ hr1).1 hd.2.1, rbind_ok]
+  have hr2 : nsInRange (diffLeap ta tb) := by simp only [nsInRange, NS_MAX]; omega
+  rw [(ofNs_spec' _ hr1).2, (ofNs_spec' _ hr2).2]
+  have hr3 : nsInRange ((dayA - dayB) * SECS_PER_DAY * 1000000000 + diffLeap ta tb) := by
+    simp only [nsInRange, NS_MAX, hS]; omega
+  rw [if_pos hr3]
+  simp only []
+  have e : (dayA - dayB) * SECS_PER_DAY * 1000000000 = (dayA - dayB) * 86400000000000 := by
+    rw [hS]; omega
+  rw [e]
+
+/-! ### derived order -/
+
+/-- the derived lexicographic order on `(secs, frac)` is the order of positions on the line that
+holds the operands' leap seconds -/
+theorem cmp_line' (a b : Time) (ha : TValid a) (hb : TValid b) :
+    Time.cmp a b = (if diffLeap a b < 0 then -1 else if diffLeap a b > 0 then 1 else 0) := by
+  obtain ⟨s1, f1⟩ := a
+  obtain ⟨s2, f2⟩ := b
+  simp only [TValid] at ha hb
+  unfold Time.cmp diffLeap linePos pos
+  simp only []
+  (repeat' split) <;> omega
+
 end Chrono.Proofs
